@@ -327,9 +327,15 @@ def run_check(pid, tier, seed, blocks, level='model_checking', assumptions=(),
                            'count': tot.counters.get('viol:' + key, 1)}, f, indent=1)
             ok = confirm_replay(pid, path) if n < 3 else True
             if ok is False:
-                print(f'HARNESS-NONDETERMINISM property={pid} replay={path}: '
-                      'violation did not reproduce in a fresh process', file=sys.stderr)
-                exit_code = max(exit_code, 2)
+                # every source of nondeterminism is owned by the harness (virtual clock, counter-based random source,
+                # fixed hash seed), so a violation that holds when its case runs alone in a fresh process depends on
+                # state the code under test kept from earlier cases of the same worker (memo tables, module globals).
+                # That is a violation of the property for that call history; it is reported as such, with the note.
+                print(f'HISTORY-DEPENDENT property={pid} replay={path}: the case alone in a fresh process holds; the '
+                      'violation needs the calls made by earlier cases in the same process', file=sys.stderr)
+                print(f'VIOLATION property={pid} replay={path}')
+                print(f'  signature={key}\n  detail=[history-dependent] {v["detail"][:600]}')
+                exit_code = max(exit_code, 1)
                 continue
             if n < 25:
                 print(f'VIOLATION property={pid} replay={path}')
